@@ -544,11 +544,19 @@ func genSchema(c *rig.Ctx, name string) Schema {
 	s := Schema{Name: rig.Hex(name), Strategy: rig.Hex(rig.Pick(c.Rng, strategies))}
 	r := c.Rng.Intn(100)
 	limit := func() int32 {
+		// small limits (0 and 1 included) most of the time; the numeric extremes of int32 and powers of two as well -
+		// above all as STARTING values of schemas that are later resized in place to a small limit
 		switch x := c.Rng.Intn(40); {
 		case x == 0:
-			return -1 // uint32 wrap: 4294967295
+			return -1 // out of the property's domain; the code casts it to uint32 4294967295
 		case x == 1:
 			return 1000
+		case x == 2 || x == 3:
+			return 2147483647 // math.MaxInt32
+		case x == 4:
+			return 2147483646
+		case x == 5:
+			return rig.Pick(c.Rng, []int32{1 << 30, 1 << 16, 65535, 256, 255, 128, 127, -2147483648})
 		default:
 			return int32(c.Rng.Intn(5))
 		}
@@ -640,6 +648,9 @@ func genHistCase(c *rig.Ctx) HistCase {
 			f := genSchema(c, fn)
 			if c.Rng.Intn(3) > 0 {
 				f = Schema{Name: rig.Hex(fn), Strategy: rig.Hex(""), Mi: i32(int32(c.Rng.Intn(4)))}
+				if c.Rng.Intn(8) == 0 {
+					f.Mi = i32(rig.Pick(c.Rng, []int32{2147483647, 2147483647, 2147483646, 1 << 30, 65536}))
+				}
 			}
 			list = append(list, f)
 			for _, other := range schemaNames {
